@@ -86,7 +86,7 @@ def run_seq(report, programs, shrink=True, extra_search=None):
                 def still(p):
                     # a candidate that hangs (a removed `drain` lets 4 sealed memtables stall the writer) is not a smaller failing
                     # program: short limits, no patient re-run, and a cut-off run counts as "does not fail"
-                    i, _, rc_ = run_fjv(p, timeout=25, retry=False, env_extra={"FJV_SYNC_TIMEOUT_MS": "8000"})
+                    i, _, rc_ = run_fjv(p, timeout=15, retry=False, env_extra={"FJV_SYNC_TIMEOUT_MS": "4000"})
                     if rc_ == -99 or any(v == "err timeout" for v in i.values()):
                         return False
                     return compare(p, i, run_fjm(p, "ideal")) is not None and \
